@@ -197,7 +197,9 @@ struct HllObj : Obj {
   // SET mode stores its coupons in hash-table order; HLL_4 keeps exceptions in an auxiliary hash map
   bool unordered_layout() { return sk.get_current_mode() == hll_mode::SET || (sk.get_current_mode() == hll_mode::HLL && sk.get_target_type() == HLL_4); }
   long advertised_size() { return updatable ? (long)sk.get_updatable_serialization_bytes() : (long)sk.get_compact_serialization_bytes(); }
-  long max_size() { return updatable ? (long)Hll::get_max_updatable_serialization_bytes(sk.get_lg_config_k(), sk.get_target_type()) : -1; }
+  // hll.hpp documents that for HLL_4 the advertised maximum "can be exceeded in extremely rare cases" (large aux map): not gated for HLL_4
+  long max_size() { return updatable && sk.get_target_type() != HLL_4 ? (long)Hll::get_max_updatable_serialization_bytes(sk.get_lg_config_k(), sk.get_target_type()) : -1; }
+  void exercise() { sk.serialize_compact(); sk.serialize_updatable(); for (int t = 0; t < 3; ++t) { Hll c(sk, (target_hll_type)t); c.get_estimate(); c.serialize_compact(); } sk.to_string(true, true, true, true); }
   size_t ncont() { return 3; }
   std::string cont_name(size_t i) { return i == 0 ? "update x5" : i == 1 ? "update x lots" : "union-with-operand"; }
   void cont(size_t i) {
@@ -218,6 +220,13 @@ inline void hll_states(bool quick, const StateCb& cb, bool updatable) {
       for (int i = 0; i < n; ++i) o.sk.update((uint64_t)((uint64_t)i * 2654435761ULL + 11));
       cb("lgk" + str(lgk) + "/type" + str(ty) + (full ? "/full" : "") + "/n" + str(n), o);
     }
+  }
+  // HLL_4 with auxiliary exceptions (values >= cur_min + 15), injected as coupons; also in the other types for comparison
+  for (int ty = 0; ty < 3; ++ty) for (int nex = 1; nex <= 5; nex += 2) for (int lgk = 4; lgk <= 8; lgk += 4) {
+    HllObj o(Hll((uint8_t)lgk, (target_hll_type)ty, false, A8(1)), updatable);
+    for (int i = 0; i < 40; ++i) o.sk.update((uint64_t)((uint64_t)i * 2654435761ULL + 11));
+    for (int e = 0; e < nex; ++e) o.sk.coupon_update(((uint32_t)(20 + 9 * e) << 26) | (uint32_t)(e * 3 + 1));
+    cb("aux/lgk" + str(lgk) + "/type" + str(ty) + "/exceptions" + str(nex), o);
   }
   // union results (out-of-order flag set, estimator state differs) in each type
   for (int ty = 0; ty < 3; ++ty) for (int n = 5; n <= 3000; n = n * 5 + 3) {
